@@ -140,3 +140,58 @@ func init() {
 		return strings.Join(parts, " | ")
 	})
 }
+
+// depsadjh <entry> <n> <instruction>... <k> <op>...
+//
+// Property C06 after a history: the operations of "deps" are applied first
+// (moves, bound queries, lookups), then every adjacent pair of every block is
+// swapped (Block.Move(i, i+1)) and, if that was accepted, swapped back.
+//
+// Result: "err:<class>" when NewCode fails, otherwise
+//
+//	<nblocks> | <begin> <num> <original address of the instruction at each position>... <num-1 answers> | ...
+//
+// with the answers of depsMoveErr, or "ok-noundo:<answer>" when the swap was
+// accepted but swapping back was not.
+func init() {
+	register("depsadjh", func(t *tokens) string {
+		entry, seq := t.depsProgram()
+		k := t.int()
+		if k < 0 {
+			panic(parseError("bad op count"))
+		}
+		code, err := deps.NewCode(entry, seq)
+		if err != nil {
+			t.rest()
+			return bbErrClass(err)
+		}
+		for i := 0; i < k; i++ {
+			depsOp(code, t)
+		}
+
+		parts := []string{fmt.Sprintf("%d", code.Len())}
+		for bi := 0; bi < code.Len(); bi++ {
+			b := code.Index(bi)
+			var sb strings.Builder
+			fmt.Fprintf(&sb, "%d %d", uint64(b.Begin()), b.Num())
+			for i := 0; i < b.Num(); i++ {
+				fmt.Fprintf(&sb, " %d", uint64(b.Index(i).OrigAddr()))
+			}
+			for i := 0; i+1 < b.Num(); i++ {
+				a := depsemuProtect(func() string {
+					r := depsMoveErr(b.Move(i, i+1))
+					if r != "ok" {
+						return r
+					}
+					if u := depsMoveErr(b.Move(i+1, i)); u != "ok" {
+						return "ok-noundo:" + u
+					}
+					return "ok"
+				})
+				sb.WriteString(" " + strings.ReplaceAll(a, " ", "_"))
+			}
+			parts = append(parts, sb.String())
+		}
+		return strings.Join(parts, " | ")
+	})
+}
